@@ -175,7 +175,7 @@ class paint_from_ot_stub:
     returns = lambda: Instance("spec.GhostTransformPaint", m=AFF)
     ensures = {}
     native = False
-    note = "a transform paint read back from its otTables form has SOME affine (field mapping is exercised natively by the paint round-trip tests and the bounded tier)"
+    note = "a transform paint read back from its otTables form has SOME affine; WHICH one (the field mapping, per transform format) is the bounded conformance contract c_conformance.paint_from_ot_transform_conformance against fontTools' Paint.getTransform"
 
 
 def _pending(t):
